@@ -275,6 +275,22 @@ def _run(ck, m):
             if not okc_:
                 extra_conditions.append(qb.loc(x))
     okc = len(in_loop) >= 1 and len(out_loop) >= 1 and bool(lists) and whole and not extra_conditions
+    # the listing is not shortened between the directory read and the loop, and the query has no way out before the live file is read
+    SHRINK = ('truncate', 'retain', 'drain', 'pop', 'remove', 'swap_remove', 'split_off', 'clear', 'dedup', 'dedup_by', 'dedup_by_key', 'retain_mut')
+    shrunk = sorted({'%s@%s' % (callee_decl(t_).split('::')[-1], qb.loc(bi_)) for bi_, t_ in qb.calls()
+                     if callee_decl(t_).startswith('std::vec::Vec::') and callee_decl(t_).split('::')[-1] in SHRINK
+                     and any(r[0] == 'call' and r[1] in lists for a_ in t_['args'][:1] for r in origins(qb, a_))})
+    ck.ob('C12.c', short(qb.id), 'listing-not-shortened', not shrunk,
+          'the directory listing reaches the loop with every entry' if not shrunk else
+          'the query shortens the listing of rotated files (%s) before it reads them: the files cut off still hold records within the '
+          'configured log size (the clean-up runs only every few minutes), a catch-up whose `since` reaches into them misses their keys' % shrunk,
+          '%s:%s' % (qb.file, qb.line))
+    early = [qb.loc(x) for x in out_loop if not qb.postdominates(x, 0)]
+    ck.ob('C12.c', short(qb.id), 'no-way-out-before-the-files-are-read', not early and bool(out_loop),
+          'the read of the live file post-dominates the entry of the query' if not early else
+          'the query can return before it reads the files (the live-file read at %s does not post-dominate the entry): an "already up to date" '
+          'shortcut that consults the live file only answers nothing while the rotated files hold records at or after `since` (live file empty '
+          'after an interrupted rotation or a restart on an exactly full file)' % early, '%s:%s' % (qb.file, qb.line))
     ck.ob('C12.c', short(qb.id), 'all-files-visited', okc,
           'the query reads the live file and, in a loop over the directory listing, every rotated file' if okc else
           'reader calls: %d outside a loop, %d inside; directory listing: %s; the loop iterates the whole listing: %s; conditions other '
